@@ -162,6 +162,15 @@ def call_trait(w, it, selfty, trait, meth, args, callee, frame):
         return args[0]
     if key == ("Instrument", "instrument"):
         return args[0]
+    if trait in ("Add", "Sub", "Mul", "Div", "AddAssign", "SubAssign") and args and isinstance(deref(it, args[0]), Agg) and deref(it, args[0]).name == "Duration":
+        kind = {"Add": "add", "Sub": "sub", "Mul": "mul", "Div": "div", "AddAssign": "add", "SubAssign": "sub"}[trait]
+        r = w.dur_arith(kind)(w, it, args, callee)
+        if trait.endswith("Assign"):
+            deref(it, args[0]).fields[0] = r.fields[0]
+            return UNIT
+        return r
+    if key == ("FutureExt", "now_or_never"):
+        return w.builtins["now_or_never"](w, it, args, callee)
     if key == ("FutureExt", "boxed"):
         return BoxV(Cell(args[0], "boxed future"), "Box")
     # ---- scripted user actor
@@ -654,6 +663,24 @@ def install(w):
             w.unwinding_now = False
             it.ex.event(ev="panic_caught", msg=p.msg[:80])
             return mk_err(BoxV(Cell(Opaque("PanicPayload", p.msg), "panic payload"), "Box"))
+
+    @reg("FutureExt::now_or_never", "now_or_never")
+    def now_or_never(w, it, a, c):
+        fut = a[0]
+        r = w.poll_future(it, fut, Opaque("Context", "now_or_never"))
+        if r.variant == "Ready":
+            if not (isinstance(fut, Agg) and fut.kind == "coroutine"):
+                it.drop_value(fut)
+            return mk_some(r.fields[0])
+        it.drop_value(fut)
+        return mk_none()
+
+    @reg("tokio::runtime::Handle::spawn", "Handle::spawn")
+    def rt_handle_spawn(w, it, a, c):
+        t = W.Task(w, "spawned%d" % len(w.tasks), a[1])
+        w.last_spawn = t
+        it.ex.event(ev="spawn", task=t.id)
+        return W.JoinHandle(t)
 
     @reg("std::future::ready", "future::ready")
     def future_ready(w, it, a, c):
@@ -1531,6 +1558,8 @@ def install(w):
             y = y.fields[0] if isinstance(y, Agg) else y.v
             if kind == "add":
                 r = x + y
+                if isinstance(r, int) and r > 18446744073709551615999999999:
+                    raise RustPanic("overflow when adding durations")
             elif kind == "sub":
                 if isinstance(x, int) and isinstance(y, int):
                     if y > x:
@@ -1572,6 +1601,8 @@ def install(w):
         x = deref(it, a[0]).fields[0]
         y = deref(it, a[1]).fields[0]
         r = x + y
+        if isinstance(r, int) and r > 18446744073709551615999999999:
+            return mk_none() if "checked" in c else Agg("struct", "Duration", [18446744073709551615999999999])
         d = Agg("struct", "Duration", [r if isinstance(r, int) else z3.simplify(r)])
         return mk_some(d) if "checked" in c else d
 
